@@ -1,0 +1,68 @@
+//go:build verif
+
+// Machine-checked contracts (read by /verif/bin/fsv; comment-only, guarded by the verif tag).
+// C09: bounded attempts, spaced by the delay, one winner, losers cancelled.
+// Threads: M = Apply$1 (the caller's loop), W = Apply$1$1 (one per attempt, spawned by M).
+// Shared: resultCount / resultSent (atomics, rely: count only grows, sent only turns true) and resultChan
+// (capacity 1; message invariant proved at the single send site, assumed at the receive sites).
+
+package hedgepolicy
+
+//@ frozen config.BaseAbortablePolicy, config.delayFunc, config.maxHedges, config.onHedge, hedgePolicy.config, executor.BaseExecutor, executor.hedgePolicy
+//@ confined sync/atomic.Int32.v, sync/atomic.Bool.v#b
+//@ frozen execResult.result, execResult.index
+
+//@ extfunc github.com/failsafe-go/failsafe-go/policy.ExecutionInternal.CopyForHedge
+//@   modifies nothing
+//@   ensures result != nil && implements(result, policy.ExecutionInternal) && fresh(payload(result))
+
+// W: one attempt. Runs the inner function once; sends at most one message, only after winning the CAS on resultSent,
+// and the message is the attempt's own result, either matching the cancel conditions or the last one to arrive.
+//@ func (*executor).Apply$1$1
+//@   requires e != nil && e.hedgePolicy != nil && e.config != nil && e.BaseAbortablePolicy != nil && innerFn != nil && hedgeExec != nil && resultChan != nil
+//@   requires forall j int :: 0 <= j && j < len(e.abortConditions) ==> e.abortConditions[j] != nil
+//@   requires 0 <= execIdx && execIdx <= e.maxHedges && e.maxHedges <= 1073741824 && atomval_int(resultCount) >= 0 && atomval_int(resultCount) <= 1073741824
+//@   rely resultCount: newv >= oldv && newv <= 1073741824
+//@   rely resultSent: oldv ==> newv
+//@   premise ret(innerFn, 1) != nil
+//@   let r := cast(ret(innerFn, 1), *common.PolicyResult)
+//@   let cancellable := exists j int :: 0 <= j && j < len(e.abortConditions) && appb(e.abortConditions[j], r.Result, r.Error)
+//@   sendinv [C09.message] msg != nil && msg.result == ret(innerFn, 1) && msg.index == execIdx && atomval_bool(resultSent)
+//@   ensures [C09.attempt.once] ncalls(innerFn) == 1 && arg(innerFn, 1, 0) == hedgeExec
+//@   ensures [C09.attempt.at_most_one_send] nsends(resultChan) <= 1
+//@   ensures [C09.attempt.send_only_if_eligible] nsends(resultChan) == 1 ==> cancellable || atomval_int(resultCount) >= e.maxHedges + 1
+//@   ensures [C09.attempt.send_marks_sent] nsends(resultChan) == 1 ==> atomval_bool(resultSent)
+//@   havoc
+//@   modifies resultCount.v, resultSent.v, calls(innerFn), tokens(resultChan)
+
+// M: the caller's loop.
+//@ func (*executor).Apply$1
+//@   requires e != nil && e.hedgePolicy != nil && e.config != nil && e.BaseAbortablePolicy != nil && e.delayFunc != nil && innerFn != nil && typeis(exec, *failsafe.execution)
+//@   requires 0 <= e.maxHedges && e.maxHedges <= 1073741824
+//@   recvinv msg != nil && msg.result != nil && 0 <= msg.index && msg.index <= e.maxHedges
+//@   premise forall j int, k int :: j >= 1 && k >= 1 ==> reti(exec.CopyForHedge, j) != reti(exec.CopyForCancellable, k)
+//@   loop 0 invariant 0 <= execIdx && execIdx <= e.maxHedges && spawned() == execIdx
+//@   loop 0 invariant [C09.spacing] execIdx > 0 ==> sel(1) == 0
+//@   loop 0 invariant [C16.hedge.onhedge] e.onHedge != nil ==> ncalls(e.onHedge) == max(execIdx - 1, 0)
+//@   loop 0 invariant len(executions) == e.maxHedges + 1
+//@   loop 0 invariant [C09.no_cancel_before_result] forall x iface :: ncalls(x.Cancel) == 0
+//@   loop 0 invariant forall j int :: 0 <= j && j < execIdx ==> executions[j] != nil && allocated(payload(executions[j]))
+//@   loop 0 invariant forall j int, k int :: 0 <= j && j < k && k < execIdx ==> executions[j] != executions[k]
+//@   loop 0 invariant forall j int :: execIdx <= j && j < len(executions) ==> executions[j] == nil
+//@   loop 1 invariant -1 <= rangeindex && rangeindex < len(executions) && local("result") != nil && 0 <= local("result").index && local("result").index <= e.maxHedges && len(executions) == e.maxHedges + 1
+//@   loop 1 invariant spawned() == execIdx + 1 && 0 <= execIdx && execIdx <= e.maxHedges && (e.onHedge != nil ==> ncalls(e.onHedge) == execIdx) && ncalls(exec.IsCanceledWithResult) >= 1 && !retb(exec.IsCanceledWithResult, ncalls(exec.IsCanceledWithResult), 0)
+//@   loop 1 invariant forall j int, k int :: 0 <= j && j < k && k <= execIdx ==> executions[j] != executions[k]
+//@   loop 1 invariant forall j int :: 0 <= j && j <= execIdx ==> executions[j] != nil
+//@   loop 1 invariant forall j int :: execIdx < j && j < len(executions) ==> executions[j] == nil
+//@   loop 1 invariant [C09.losers.inv] forall j int :: 0 <= j && j <= rangeindex && j != local("result").index && executions[j] != nil ==> ncalls(executions[j].Cancel) >= 1
+//@   loop 1 invariant [C09.winner.inv] local("result").index <= execIdx ==> ncalls(executions[local("result").index].Cancel) == 0
+//@   loop 1 decreases len(executions) - rangeindex
+//@   let c := retb(exec.IsCanceledWithResult, ncalls(exec.IsCanceledWithResult), 0)
+//@   ensures [C09.bounded] spawned() >= 1 && spawned() <= e.maxHedges + 1
+//@   ensures [C09.parent_cancel+C08.hedge.parent_cancel] c ==> result == ret(exec.IsCanceledWithResult, ncalls(exec.IsCanceledWithResult), 1)
+//@   ensures [C09.returns_received_result] !c ==> local("result") != nil && result == local("result").result
+//@   ensures [C09.losers_cancelled] !c ==> (forall j int :: 0 <= j && j < len(executions) && j != local("result").index && executions[j] != nil ==> ncalls(executions[j].Cancel) >= 1)
+//@   ensures [C09.winner_not_cancelled] !c && local("result").index < spawned() ==> ncalls(executions[local("result").index].Cancel) == 0
+//@   ensures [C16.hedge.onhedge_total] e.onHedge != nil ==> ncalls(e.onHedge) == spawned() - 1
+//@   havoc
+//@   modifies *
